@@ -345,6 +345,20 @@ func destEW(prop string, r *rng, emit func(string)) {
 func genEW(prop, tier string, r *rng, emit func(string)) {
 	thorough := tier == "thorough"
 	destEW(prop, r, emit)
+	// found by the proof of zhistory_refines (RefineProofs2.v), not by the generators: in-place
+	// operations on partly overlapping views; a one-element view compared with itself
+	if prop == "C07" {
+		for _, dt := range []string{"f64", "i"} {
+			for _, c := range []string{"new:rm:5:1;slice:0:1.5.1;slice:0:0.4.1;bin:sub:1:2:unsafe", "new:rm:5:1;slice:0:1.5.1;slice:0:0.4.1;bin:add:2:1:unsafe",
+				"new:rm:3,4:1;slice:0:0.2.1/_;slice:0:1.3.1/_;bin:mul:1:2:unsafe", "new:rm:6:1;slice:0:0.4.1;slice:0:2.6.1;cmp:lt:1:2:same:unsafe"} {
+				emit(fmt.Sprintf("prog %s %s", dt, c))
+			}
+		}
+	}
+	if prop == "C11" {
+		emit("prog f64 new:rm:2,1:1;slice:0:0.2.2;cmp:gt:1:1:same:safe")
+		emit("prog i new:rm:3:1;slice:0:1.2.1;cmp:lte:1:1:same:safe")
+	}
 	if prop == "C12" {
 		// which element types each unary function accepts and what it computes there: the value
 		// sweeps of C17 for the unary family (float, complex and integer instances)
